@@ -257,6 +257,8 @@ def roundModelLaws : List Law :=
   , law! "Round.ofNat", .holds, fun α _g => check_Round_ofNat α (natKsLe α)
   , law! "Round.ofNat[k>N]", .fails, fun α _g => check_Round_ofNat α (natKsGt α)
   , law! "Round.half", .holds, fun α _g => check_Round_half α
+  , law! "Round.sub", .holds, fun _α g => check_Round_sub true (roundGrid g)
+  , law! "Round.quarter", .holds, fun α _g => check_Round_quarter α
   , law! "Round.lt", .holds, fun _α g => check_Round_lt (roundGrid g)
   , law! "Round.finNotNaN", .holds, fun _α g => check_Round_notNaN (roundGrid g)
   , law! "Round.add[unguarded]", .fails, fun _α g => check_Round_add false (roundGrid g)
